@@ -235,8 +235,6 @@ pub struct BufferReader<T: Copy> {
 impl<T: Copy> BufferReader<T> {
     #[must_use]
     fn new(parent: Arc<Buffer<T>>, start: usize, end: usize) -> Self {
-        #[cfg(feature = "verif_hooks")]
-        parent.verif_window(crate::verif::WindowKind::Read, true, start, end);
         Self { parent, start, end }
     }
 
@@ -291,8 +289,6 @@ impl<T: Copy> BufferWriter<T> {
     #[must_use]
     fn new(parent: Arc<Buffer<T>>, start: usize, end: usize) -> BufferWriter<T> {
         assert!(end >= start);
-        #[cfg(feature = "verif_hooks")]
-        parent.verif_window(crate::verif::WindowKind::Write, true, start, end);
         Self { parent, start, end }
     }
 
@@ -597,6 +593,9 @@ impl<T: Copy> Buffer<T> {
                 ));
             }
         }
+        // The window is live from the moment its range is computed.
+        #[cfg(feature = "verif_hooks")]
+        self.verif_window(crate::verif::WindowKind::Read, true, start, end);
         drop(s);
         tags.sort_by_key(|a| a.pos());
         Ok((BufferReader::new(self, start, end), tags))
@@ -606,6 +605,8 @@ impl<T: Copy> Buffer<T> {
     pub fn write_buf(self: Arc<Self>) -> Result<BufferWriter<T>> {
         let s = self.state.0.lock().unwrap();
         let (start, end) = s.write_range();
+        #[cfg(feature = "verif_hooks")]
+        self.verif_window(crate::verif::WindowKind::Write, true, start, end);
         drop(s);
         Ok(BufferWriter::new(
             //unsafe { std::mem::transmute::<&mut [T], &mut [T]>(buf) },
